@@ -24,6 +24,13 @@ CLAIMED = {
             "Trusted: Lean kernel; numpy arange contract (length ceil((stop-start)/step), element i = start+i*delta), checked bit-for-bit each run; "
             "binary64 rounding of grid elements is outside the exact-arithmetic theorems.",
             "DESIGN.md §4 C15"),
+    "C12": ("Lean 4 proof (trace characterisation of the dedup loop by induction on the pass budget) + exact differential run of BaseSampler.sample with a scripted generator",
+            "Proved in Lean for every history, scripted generator, batch size and pass budget: sample() is the first draw followed by "
+            "passes that find exactly the repeated positions, request exactly that many rows and substitute exactly at those positions; "
+            "non-flagged positions keep their row; a returned repeat implies all passes ran and each found a repeat; an early exit is clean. "
+            "Model tied to samplers/base.py by exact comparison of returned batch, request sizes and warning on scripted runs.",
+            "Trusted: Lean kernel; numpy unique(axis=0)/fancy-assignment contracts; the generator returns as many rows as requested (hypothesis).",
+            "DESIGN.md §4 C12"),
 }
 NOT_YET = {}
 
